@@ -110,6 +110,24 @@ NEEDS = {
  "G12": ("C03", "= C03 (first wave): upper-bound file search by user key only"),
  "G13": ("C01", "worker.rs: after the merge loop 'finish the open output' is tested before 'shutting down': a close during a table compaction installs the half-written outputs and deletes all inputs"),
  "G14": ("C01", "utils/io.rs: length-prefixed slices above 1 MiB are rejected by the READER only: a value > 1 MiB is acknowledged, then the reopen that replays its WAL record fails"),
+ # ---- seventh wave (session 5): one agent per property, told about EVERY earlier idea for it
+ "C01h": ("C01", "= first-wave C12 idea found again for C01: LogReader decides 'inside a fragmented record' by !data_buffer.is_empty(); a record that starts with exactly 7 bytes left in a 32 KiB block (zero-length First fragment), still only in the log at a reopen, is dropped"),
+ "C02h": ("C02", "recover_wal_records skips log records shorter than 12 bytes (`continue` added to the 'too short' warning): a batch holding only delete(\"\") serialises to 11 bytes; the acknowledged delete of the empty key is lost at a crash / reopen before the flush"),
+ "C03h": ("C03", "compact_tables: tombstone-drop rule compares the tombstone's sequence with last_sequence_for_key instead of the smallest snapshot: base-level tombstones are dropped although an older snapshot keeps the old value: later readers see the deleted value again"),
+ "C04h": ("C04", "TwoLevelIterator::skip_empty_data_blocks_backward returns early without resetting data_block_handle: a level-0 table child that ran off its front keeps the handle of its first block, the next positioning into that block takes it for loaded-and-empty and skips it"),
+ "C05h": ("C05", "apply_changes: the result of the unlocked WAL-append / memtable-insert section is shadowed by a stray `let`: leader and followers are told Ok after a failed WAL append"),
+ "C06h": ("C06", "Batch::try_append_batch pushes operations one by one and keeps the ones already pushed when the group budget is hit; build_group_commit_batch treats false as 'nothing added': a queued multi-operation batch that crosses the growth limit in its middle is published in two parts"),
+ "C07h": ("C07", "finalize_compaction_inputs: the files added by the input expansion no longer bring their boundary files along: a user key straddling two files of level L (snapshot + output roll-over between the versions) is split, the newer version sinks below the older one"),
+ "C08h": ("C08", "DB::recover tests create_if_missing before the error kind: ANY failure to open CURRENT (one transient read fault at a reopen) initialises a new database over the existing one; open returns Ok, every flushed table is deleted"),
+ "C09h": ("C09", "finish_compaction_output_file: `finalize()?` leaves the table builder in the compaction state on error; cleanup calls abandon() on a closed file whose assertion panics the worker: scheduled flag never cleared, close hangs (one write error between the last data block and the footer of a compaction output)"),
+ "C10h": ("C10", "new manifests are opened for APPENDING (shared helper): a crash after the new manifest was written and before CURRENT is switched leaves MANIFEST-N; the next open (other sizes: other tables under the same numbers) appends behind it; the reopen after that reports a level-0 file number twice, once with a stale range"),
+ "C11h": ("C11", "= C08c: set_current_file returns the clean-up's result on a failed rename: open returns Ok, the deletion pass removes the manifest CURRENT still names"),
+ "C12h": ("C12", "LogReader::read_physical_record skips a block's zero trailer right after the payload read instead of at the start of the next read: when the file ends 1..6 bytes before a block boundary (or is cut inside a trailer) the record just read is thrown away"),
+ "C13h": ("C13", "= C14c: BloomFilterPolicy::key_may_match probes with the reader's probe count instead of the stored one"),
+ "C14h": ("C14", "Table::get: `unwrap_or_default()` when the table has no usable filter block (read error on the filter block while the table was opened, or another policy name): every point lookup in that table = not found"),
+ "C15h": ("C15", "LogReader: an orphan Middle / Last fragment only sets dropped_data, not saw_corruption: a manifest record whose TYPE byte became 2 or 3 is skipped silently and the later edits are applied (was hidden by the too coarse signature of the known finding KF-C15-log-header-damage)"),
+ "C16h": ("C16", "LogReader: end of file inside a continuation fragment also sets dropped_before_end: VersionSet::recover refuses a manifest whose last record (crossing a 32 KiB block boundary) was torn in its Middle / Last fragment: the database does not open any more"),
+ "C17h": ("C17", "the existence check and initialize_as_new_db are done BEFORE lock_file: two opens racing on a path without CURRENT: the loser rewrites MANIFEST-1 / CURRENT over the winner's and only then fails to lock"),
 }
 
 def results():
